@@ -165,33 +165,33 @@ type world struct {
 	delInCR int
 	panicAt map[int]bool
 	abandon bool
-	c      *sim.Case
-	e      *sim.Env
-	mode   string
-	flavor int64
-	capa   int
-	cache  cacheAPI
-	nextID int
+	c       *sim.Case
+	e       *sim.Env
+	mode    string
+	flavor  int64
+	capa    int
+	cache   cacheAPI
+	nextID  int
 	// loader plan: key -> attempt -> fail / ttl
-	attempts map[string]int
-	failAt   map[string]bool // "key#attempt"
-	ttlFor   map[string]time.Duration
-	inProg   map[string]int
-	created  map[int]string // id -> key (successful creations)
-	deleted  map[int]int
-	cur      map[string]*callRec // per goroutine
-	tasks    int
-	nDone    int
-	phase    int
-	m        *refLRU
-	hist     []histOp
-	expiry   map[int]time.Time // id -> expiresAt (flavor 2)
-	createdBy map[int]string   // id -> task whose call created it
-	createdPK map[int]ekey     // ECache flavour: the key the entry was created with
-	variants  map[string]int64 // per goroutine: alias variant of the current operation
-	retStamp  map[int]int64    // id -> stamp at which the creating call returned
+	attempts     map[string]int
+	failAt       map[string]bool // "key#attempt"
+	ttlFor       map[string]time.Duration
+	inProg       map[string]int
+	created      map[int]string // id -> key (successful creations)
+	deleted      map[int]int
+	cur          map[string]*callRec // per goroutine
+	tasks        int
+	nDone        int
+	phase        int
+	m            *refLRU
+	hist         []histOp
+	expiry       map[int]time.Time // id -> expiresAt (flavor 2)
+	createdBy    map[int]string    // id -> task whose call created it
+	createdPK    map[int]ekey      // ECache flavour: the key the entry was created with
+	variants     map[string]int64  // per goroutine: alias variant of the current operation
+	retStamp     map[int]int64     // id -> stamp at which the creating call returned
 	maxNodesOver int
-	loaderSleep map[string]time.Duration
+	loaderSleep  map[string]time.Duration
 }
 
 func New(c *sim.Case) (sim.World, error) {
